@@ -96,6 +96,20 @@ def shared_expr(c, key):
     return c.objs[key]
 
 
+def held(c, hx):
+    """an instruction object decoded ONCE per process and kept by the caller; every later call observes the same object:
+    (length, Intel text, AT&T text, prefix list, lifted semantics)"""
+    key = 'held:' + hx
+    if key not in c.objs:
+        c.objs[key] = c.ia32.x86mnemo.dis(bytes.fromhex(hx))
+    i = c.objs[key]
+    try:
+        sem = [str(e) for e in c.eh.get_instr_expr(i, c.X.ExprInt32(len(hx) // 2), [])]
+    except Exception as ex:
+        sem = 'EXC:%s' % type(ex).__name__
+    return (i.l, str(i), i.__str__(asm_format='att_syntax binutils'), [int(x) for x in i.prefix], sem)
+
+
 def emul(c, hexes):
     m = c.eh.x86_machine()
     ins = [c.ia32.x86mnemo.dis(bytes.fromhex(h)) for h in hexes]
@@ -111,6 +125,13 @@ CALLS = [
     ('dis 658b00 (segment, no disp)', lambda c: render_instr(c.ia32.x86mnemo.dis(bytes.fromhex('658b00')))),
     ('dis 8b00', lambda c: render_instr(c.ia32.x86mnemo.dis(bytes.fromhex('8b00')))),
     ('dis 8d00 (lea)', lambda c: render_instr(c.ia32.x86mnemo.dis(bytes.fromhex('8d00')))),
+    ('dis fec0 (same ModRM as held ffc0)', lambda c: render_instr(c.ia32.x86mnemo.dis(bytes.fromhex('fec0')))),
+    ('dis 0f58c1 (same row as held f20f58c1)', lambda c: render_instr(c.ia32.x86mnemo.dis(bytes.fromhex('0f58c1')))),
+    ('dis 668b4510 (same ModRM as held 8b4508)', lambda c: render_instr(c.ia32.x86mnemo.dis(bytes.fromhex('668b4510')))),
+    ('held ffc0 (inc eax, register ModRM)', lambda c: held(c, 'ffc0')),
+    ('held f20f58c1 (addsd, mandatory prefix)', lambda c: held(c, 'f20f58c1')),
+    ('held 8b4508 (mov eax,[ebp+8])', lambda c: held(c, '8b4508')),
+    ('held f3a5 (rep movsd)', lambda c: held(c, 'f3a5')),
     ('asm mov eax, ebx', lambda c: hexs(c.ia32.x86mnemo.asm('mov eax, ebx'))),
     ('asm shl eax, cl', lambda c: hexs(c.ia32.x86mnemo.asm('shl eax, cl'))),
     ('asm add DWORD PTR [ebp-8], 3', lambda c: hexs(c.ia32.x86mnemo.asm('add DWORD PTR [ebp-8], 3'))),
